@@ -123,10 +123,10 @@ class BinningConfig(BaseConfig, Immutable):
         )
 
         if is_custom:
-            edges = the_dict.pop("edges")
-            closed = the_dict.pop("closed")
+            edges = the_dict.get("edges")
+            closed = the_dict.get("closed", Closed.right)
             binning = Binning(edges, closed=closed)
-            return cls(binning, **the_dict)
+            return cls(binning, method=BinMethod.custom)
 
         return cls.create(**the_dict, cosmology=cosmology)
 
